@@ -185,9 +185,12 @@ class Search:
         self.all_goals = frozenset(build.by_key)
         self.transitions = 0
 
-    def viol(self, sig, what, history):
+    def viol(self, sig, what, history, goals=()):
         data = dict(self.where["data"], history=[list(k) for k in history])
-        self.col.violation(f"C07|{sig}|{self.construct}|{self.exclusion}", f"{self.where['label']}: {what}",
+        construct = self.construct
+        if self.exclusion == "none" and goals:        # no exclusion to blame: name the predicates involved
+            construct = "/".join(sorted({predicate_kind(self.b.props, g) for g in goals}))
+        self.col.violation(f"C07|{sig}|{construct}|{self.exclusion}", f"{self.where['label']}: {what}",
                            data, rank=self.where["rank"] * 100 + len(history))
 
     def step(self, key, depth, covered_before):
@@ -220,13 +223,14 @@ class Search:
                 ok = False
                 sig = "root-goal-not-initial" if not d else "ready-goal-not-current"
                 self.viol(sig, f"goal {g} ({predicate_kind(b.props, g)}): all structural dependencies {sorted(d)} are "
-                          f"covered but it is neither current nor covered (current={sorted(current)})", history)
+                          f"covered but it is neither current nor covered (current={sorted(current)})", history, [g])
         if not current and covered != self.all_goals:
             ok = False
             missing = sorted(self.all_goals - covered)
             kinds = sorted({predicate_kind(b.props, g) for g in missing})
             self.viol("unreachable-goal", f"terminal state (no current goal) but {missing} ({'/'.join(kinds)}) were never "
-                      f"current; their dependencies: { {str(g): sorted(self.deps.get(g, ())) for g in missing} }", history)
+                      f"current; their dependencies: { {str(g): sorted(self.deps.get(g, ())) for g in missing} }", history,
+                      missing)
         if not current:
             self.col.count("terminal_states")
         return covered, current, ok
@@ -259,6 +263,21 @@ class Search:
                     queue.append((b.snapshot(), c2, cur2, h2))
         col.notes["max_states_one_build"] = max(col.notes.get("max_states_one_build", 0), len(seen))
         return True, terminal_histories
+
+    def cover_all(self):
+        """One update with a solution that covers every goal of the pool (runs update's fixpoint loop)."""
+        b = self.b
+        b.fresh()
+        before = b.covered()
+        stub = self.Stub(list(b.by_key.values()), size=3, failing=False)
+        b.manager.update([stub])
+        self.transitions += 1
+        self.col.count("transitions")
+        self.col.count("cover_all_transitions")
+        covered, current, _ok = self.check_state(before, [])
+        self.col.distinct("states", (self.where["id"], sorted(covered), sorted(current)))
+        if not current and covered == self.all_goals:
+            self.col.count("cover_all_reached_everything")
 
     def chain(self, pick_last):
         b, col = self.b, self.col
@@ -377,6 +396,7 @@ def check_config(col, name, source, rank, scratch, cfg, idx, replay_history=None
             col.count("builds_explored_by_chains")
             for last in (False, True):
                 search.chain(last)
+        search.cover_all()
         col.count("traces_validated_against_impl", search.transitions)
         if n_pred:
             col.distinct("nontrivial", (name, placement, only, no))
@@ -425,7 +445,8 @@ def corpus(tier):
 
     n = 2 if tier == "quick" else 3
     progs = [(name, src, meta) for name, src, meta in progen.programs(n, 2)]
-    return progen.seeds() + progs
+    static = progen.static_seeds() if tier != "quick" else []     # importing them only defines functions
+    return progen.seeds() + static + progs
 
 
 def shard(col, tier, k, nshards):
@@ -462,7 +483,9 @@ def run(ctx):
     ctx.require(c.get("modules", 0) == n_modules, f"modules checked {c.get('modules')} != corpus {n_modules}")
     ctx.require(c.get("fresh_replay_mismatches", 0) == 0,
                 f"snapshot/restore diverged from a replay on fresh objects at {ctx.col.notes.get('fresh_replay_mismatch_at')}")
-    ctx.require(c.get("fresh_replays", 0) > 0 and c.get("terminal_states", 0) > 0, "vacuous: no terminal state reached")
+    if not ctx.col.violations:      # a defective implementation may never reach them: then the violations speak
+        ctx.require(c.get("fresh_replays", 0) > 0 and c.get("terminal_states", 0) > 0, "vacuous: no terminal state reached")
+        ctx.require(c.get("cover_all_reached_everything", 0) > 0, "vacuous: the cover-everything update never completed")
     ctx.require(c.get("builds_with_dependent_goals", 0) > 0, "vacuous: no goal ever depended on another goal")
     ctx.require(len(ctx.col.sets.get("graph_shapes", ())) >= 8, "vacuous: fewer than 8 distinct goal-graph shapes")
     ctx.require({"none", "pragma", "pynguin", "only_cover", "no_cover"} <= {
